@@ -164,6 +164,32 @@ def gen_case(seed, tier="quick"):
             cs = [i for i, s in enumerate(steps) if s["s"] == "set"]
             if cs:
                 flts.append({"i": rng.choice(cs), "seam": rng.choice(fault_kinds), "n": 1, "exc": "MemoryError"})
+    rx = random.Random(seed * 104729 + 7)     # its own stream: the cases of earlier seeds stay what they were
+    if rx.random() < (0.6 if be == "sym" else 0.25):
+        # relatives: vectors obtained *from the target* earlier in the history (a copy, a rotation that keeps the other
+        # coordinate groups, a same-system conversion, a vector built from the target's own coordinate objects). They are
+        # bystanders of every later step (an in-place update of the target is not an update of them) and they come back as
+        # right-hand operands, where the functional twin uses the value they had when they were made.
+        hows = ["copy", "rotateZ", "ctor", "same", "neg", "deepcopy"] + (["rotateX", "rotate_axis"] if dim >= 3 else [])
+        at = rx.randrange(len(steps) + 1)
+        nrel = rx.choice((1, 1, 2))
+        ins = [{"s": "derive", "how": rx.choice(hows), "a": round(rx.uniform(-3, 3), 3)} for _ in range(nrel)]
+        steps[at:at] = ins
+        for f_ in flts:
+            if f_["i"] >= at:
+                f_["i"] += nrel
+        for st_ in steps[at + nrel:]:
+            if st_["s"] in ("iop", "out") and st_["op"] in ("iadd", "isub", "add", "subtract") and rx.random() < 0.5:
+                st_["arg"] = {"be": "rel", "k": rx.randrange(nrel)}
+        tail = [{"s": "iop", "op": rx.choice(("imul", "itruediv", "iadd")), "arg": 2.0}]
+        if tail[0]["op"] == "iadd":
+            tail[0]["arg"] = {"be": "rel", "k": 0}
+        tail.append({"s": "iop", "op": rx.choice(("isub", "iadd")), "arg": {"be": "rel", "k": rx.randrange(nrel)}})
+        if rx.random() < 0.5:
+            g_ = rx.choice([n for d in range(2, dim + 1) for n in allnames[d]])
+            tail.insert(rx.randrange(2), {"s": "set", "name": (rx.choice(C.SYN[g_]) if (mom and g_ in C.SYN and rx.random() < 0.5) else g_),
+                                          "val": ({"$": "sym", "v": g_ + "r"} if be == "sym" else 1.5)})
+        steps += tail
     return {"kind": "hist15", "seed": seed, "start": start, "steps": steps, "faults": flts}
 
 
@@ -266,6 +292,41 @@ def clone(v):
     return type(v)(**kw)
 
 
+def deepclone(v):
+    """A vector with the same class and stored numbers that shares no coordinate object with `v`."""
+    kw = {}
+    for g, _, _ in stored(v):
+        c = object.__getattribute__(v, g)
+        kw[g] = type(c)(*c.elements)
+    return type(v)(**kw)
+
+
+def value_bits(v):
+    return (type(v).__name__, tuple((g, cn, tuple(_bits(e) for e in els)) for g, cn, els in stored(v)))
+
+
+def derive(v, how, a):
+    import copy
+
+    if how == "copy":
+        return copy.copy(v)
+    if how == "deepcopy":
+        return copy.deepcopy(v)
+    if how == "rotateZ":
+        return v.rotateZ(a)
+    if how == "rotateX":
+        return v.rotateX(a)
+    if how == "rotate_axis":
+        return v.rotate_axis(v.to_Vector3D(), a)
+    if how == "neg":
+        return -v
+    if how == "same":
+        return to_system(v, [_suffix(cn) for _, cn, _ in stored(v)])
+    if how == "ctor":
+        return type(v)(**{g: object.__getattribute__(v, g) for g, _, _ in stored(v)})
+    raise ValueError(how)
+
+
 def _suffix(cn):
     for suf in ("RhoPhi", "XY", "Theta", "Eta", "Tau", "Z", "T"):
         if cn.endswith(suf):
@@ -359,8 +420,33 @@ def run_case(case, vector):
     for f in case.get("faults", ()):
         plan.setdefault(f["i"], {})[f["seam"]] = (f["n"], f["exc"])
     vid, vtype = id(v), type(v)
+    rels = []      # (relative, a deep clone taken when it was made, its value bits then)
+    stats["relatives"] = 0
+
+    def _bystanders(i, st):
+        for k_, (w_, _, bits_) in enumerate(rels):
+            if w_ is None:
+                continue
+            now_ = value_bits(w_)
+            if now_ != bits_:
+                viol.append(_viol("I5", "relative-changed-by-update-of-target", i, st, f"relative {k_}: {_fmt((0,) + bits_)} -> {_fmt((0,) + now_)}"))
+                rels[k_] = (w_, rels[k_][1], now_)     # report once
+
     for i, st in enumerate(case["steps"]):
+        if i:
+            _bystanders(i - 1, case["steps"][i - 1])
         stats["steps"] += 1
+        if st["s"] == "derive":
+            try:
+                w_ = derive(v, st["how"], st["a"])
+                rels.append((w_, deepclone(w_), value_bits(w_)))
+                stats["relatives"] += 1
+            except faults.CATCH as e:
+                _nat(stats, e)
+                rels.append((None, None, None))
+            continue
+        if isinstance(st.get("arg"), dict) and st["arg"].get("be") == "rel" and (st["arg"]["k"] >= len(rels) or rels[st["arg"]["k"]][0] is None):
+            continue
         before = state_bits(v)
         before_sys = [cn for _, cn, _ in stored(v)]
         kind = st["s"]
@@ -444,6 +530,8 @@ def run_case(case, vector):
         def _operand(spec, for_functional):
             if isinstance(spec, dict) and spec.get("be") == "self":
                 return snap0 if for_functional else v     # the functional twin works on the copy taken before the step
+            if isinstance(spec, dict) and spec.get("be") == "rel":
+                return rels[spec["k"]][1] if for_functional else rels[spec["k"]][0]   # the value it had when it was made
             return build(vector, spec) if isinstance(spec, dict) and "be" in spec else _decode_num(spec)
 
         if kind == "iop":
@@ -451,14 +539,14 @@ def run_case(case, vector):
             arg_before = state_bits(arg) if (hasattr(arg, "azimuthal") and not isinstance(arg, numpy.ndarray) and arg is not v) else None
             fn = {"iadd": operator.add, "isub": operator.sub, "imul": operator.mul, "itruediv": operator.truediv}[opn]
             ifn = getattr(operator, opn)
-            func_args = (snap0, _operand(st["arg"], True) if isinstance(st["arg"], dict) and st["arg"].get("be") == "self" else arg)
+            func_args = (snap0, _operand(st["arg"], True) if isinstance(st["arg"], dict) and st["arg"].get("be") in ("self", "rel") else arg)
         else:
             uf = getattr(numpy, opn)
             if opn in ("add", "subtract"):
                 a0 = _operand(st["arg0"], False)
                 arg = _operand(st["arg"], False)
                 func_args = (_operand(st["arg0"], True) if st["arg0"].get("be") == "self" else a0,
-                             _operand(st["arg"], True) if isinstance(st["arg"], dict) and st["arg"].get("be") == "self" else arg)
+                             _operand(st["arg"], True) if isinstance(st["arg"], dict) and st["arg"].get("be") in ("self", "rel") else arg)
                 live_args = (a0, arg)
             elif opn == "negative":
                 a0 = build(vector, {**case["start"]}) if False else snap0
@@ -558,11 +646,13 @@ def run_case(case, vector):
         if arg_before is not None and state_bits(arg) != arg_before:
             viol.append({"prop": "C16", "inv": "I2", "aspect": "vobj:operand-of-inplace", "site": f"S:{i}:{kind}:{opn}", "pass": "hist",
                          "detail": "right-hand operand modified"})
+    if case["steps"]:
+        _bystanders(len(case["steps"]) - 1, case["steps"][-1])
     stats["final"] = [cn for _, cn, _ in stored(v)]
     stats["ops"] = stats["steps"]
     stats["cells"] = sorted(stats.pop("states"))
     stats["nontrivial"] = bool(stats["raised"] or sum(stats["faults_fired"].values()) or stats["sys_switches"] or stats["steps"] >= 2)
-    stats["extra"] = {"torn_checks": stats["torn_checks"], "sys_switches": stats["sys_switches"]}
+    stats["extra"] = {"torn_checks": stats["torn_checks"], "sys_switches": stats["sys_switches"], "relatives": stats.pop("relatives")}
     return {"viol": viol, "stats": stats}
 
 
